@@ -22,6 +22,8 @@ import time
 
 VERIF = os.path.dirname(os.path.dirname(os.path.abspath(__file__)))
 REPO = os.environ.get("VERIF_REPO", "/repo")
+# runs against a modified copy of the repository (mutation self-tests) must not overwrite the evidence of the real tree
+EVDIR = os.path.join(VERIF, "evidence") if os.path.realpath(REPO) == "/repo" else os.path.join(VERIF, "evidence_mutants")
 TLA_CP = "/opt/veriftools/tla/tla2tools.jar:/opt/veriftools/tla/CommunityModules-deps.jar"
 NCPU = os.cpu_count() or 4
 
@@ -75,7 +77,7 @@ class Ctx:
         self.exhaustive = False
         self.rule = ""
         self.trusted = []
-        ev = os.path.join(VERIF, "evidence", "%s.json" % pid)
+        ev = os.path.join(EVDIR, "%s.json" % pid)
         if os.path.exists(ev):
             try:
                 os.remove(ev)
@@ -313,7 +315,7 @@ class Ctx:
 
     # ------------------------------------------------------------- verdicts
     def replay_dir(self, tag):
-        d = os.path.join(VERIF, "replays", self.pid, "%d-%s" % (self.seed, re.sub(r"[^A-Za-z0-9_.-]", "_", str(tag))[:80]))
+        d = os.path.join(VERIF, "replays" if EVDIR.endswith("evidence") else "replays_mutants", self.pid, "%d-%s" % (self.seed, re.sub(r"[^A-Za-z0-9_.-]", "_", str(tag))[:80]))
         shutil.rmtree(d, ignore_errors=True)
         os.makedirs(d, exist_ok=True)
         return d
@@ -370,8 +372,8 @@ class Ctx:
         ev = {"property_id": self.pid, "tier": self.tier, "seed": self.seed, "level": self.level,
               "coverage": cov, "assumptions": self.assumptions, "wall_s": wall,
               "violations": len(self.violations), "known_findings_seen": self.known}
-        os.makedirs(os.path.join(VERIF, "evidence"), exist_ok=True)
-        with open(os.path.join(VERIF, "evidence", "%s.json" % self.pid), "w") as f:
+        os.makedirs(EVDIR, exist_ok=True)
+        with open(os.path.join(EVDIR, "%s.json" % self.pid), "w") as f:
             json.dump(ev, f, indent=1, default=str)
             f.write("\n")
         for k in self.known:
